@@ -671,7 +671,7 @@ pub fn static_check(prog: &Prog) -> (HashMap<String, IrType>, Option<(usize, Str
 
 /// Reference execution; also returns the value memory reached (for steering / signatures).
 pub fn reference(prog: &Prog, wit: &Wit) -> (Outcome, HashMap<String, Val>) {
-    let mut mem: HashMap<String, Val> = HashMap::new();
+    let mem: HashMap<String, Val> = HashMap::new();
     for (i, ins) in prog.iter().enumerate() {
         if !arity_ok(ins) {
             return (Outcome::Ill { at: i, why: "arity".into(), arity: true, stat: true }, mem);
